@@ -24,9 +24,12 @@ T.register("C01", __name__, T.h_ni, {"pert": None}, [g for g in ALL if len(g.uni
 
 # L3: the real Cached / MemoryCache / cache handlers / Dataset._composed stack on one long-lived graph (stub S1 in symbolic runs)
 _HIST = [g for g in ALL if (g.tags & {"ds", "cached"}) and g.gid not in HEAVY]
-T.register("C01", __name__, T.h_hist, {"mode": "c01"}, _HIST, lemma="L3", name_prefix="hist", two=True, timeout=300, stubs=("S1",),
-           cubes=lambda g: {"pert": [[j] for j in range(len(g.universe))]}, extra_params=[("extra", "int")], extra_example={"extra": 0},
-           what="history [o_a, o_a + unmentioned key with top-level order permuted, o_b = o_a perturbed in one slot, o_a] on ONE "
-                "long-lived graph: every evaluation returns the value / fails exactly as the same graph with caching switched off",
-           bounds="histories of length 4 of this shape; real MemoryCache dict, Cached.evaluate, cache handlers and "
-                  "Dataset._composed in the loop; fingerprint bytes abstracted by stub S1 (lemma J, C03-K3)")
+_QUICK_HIST = {"g11", "g13", "g14", "g15", "g62", "g64", "g65", "g17"}
+for _tier, _gs in (("quick", [g for g in _HIST if g.gid in _QUICK_HIST]), ("thorough", [g for g in _HIST if g.gid not in _QUICK_HIST])):
+    T.register("C01", __name__, T.h_hist, {"mode": "c01"}, _gs, lemma="L3", name_prefix="hist", two=True, timeout=600, stubs=("S1",),
+               tier=_tier, cubes=lambda g: {"pert": [[j] for j in range(len(g.universe))]}, extra_params=[("extra", "int")],
+               extra_example={"extra": 0},
+               what="history [o_a, o_b = o_a perturbed in one slot, o_a] on ONE long-lived graph: every evaluation returns the value / "
+                    "fails exactly as the same graph with caching switched off (labrea.cache.disabled()), whatever was evaluated before",
+               bounds="histories of length 3 of this shape; real MemoryCache dict, Cached.evaluate, cache handlers and "
+                      "Dataset._composed in the loop; fingerprint bytes abstracted by stub S1 (lemma J, C03-K3)")
